@@ -275,12 +275,111 @@ pub fn run(mut run: Run) -> i32 {
                         }
                         Err(e) => acc.viol("densify(Polygon) panic".into(), idx, || json!({"polygon": format!("{:?}", pg), "max": m, "panic": e})),
                     }
+                    // three different interior rings, and Multi* wrappers: every ring / member stays at its position
+                    {
+                        let sh = |dx: f64, rev: bool| -> LineString<f64> {
+                            let mut q: Vec<Coord<f64>> = v.iter().map(|&p| Coord { x: p.0 as f64 + dx, y: p.1 as f64 }).collect();
+                            if rev {
+                                q.reverse();
+                            }
+                            LineString::new(q)
+                        };
+                        let rings = vec![sh(0.0, false), sh(5.0, true), sh(10.0, false), sh(15.0, true)];
+                        let pg3 = Polygon::new(rings[0].clone(), rings[1..].to_vec());
+                        let mls = geo::MultiLineString(rings.clone());
+                        let mpg = geo::MultiPolygon(rings.iter().map(|r| Polygon::new(r.clone(), vec![])).collect());
+                        acc.evals += 3;
+                        match guard(|| (Euclidean.densify(&pg3, m), Euclidean.densify(&mls, m), Euclidean.densify(&mpg, m))) {
+                            Ok((d, dl, dp)) => {
+                                if d.interiors().len() != 3 || dl.0.len() != 4 || dp.0.len() != 4 {
+                                    acc.viol("densify changed the number of rings / members".into(), idx, || json!({"polygon": format!("{:?}", pg3), "max": m}));
+                                } else {
+                                    check_densified(acc, idx, "Polygon with three interiors: exterior", &pg3.exterior().0, &d.exterior().0, m);
+                                    for i in 0..3 {
+                                        check_densified(acc, idx, "Polygon with three interiors: interior at its position", &pg3.interiors()[i].0, &d.interiors()[i].0, m);
+                                    }
+                                    for i in 0..4 {
+                                        check_densified(acc, idx, "MultiLineString member at its position", &mls.0[i].0, &dl.0[i].0, m);
+                                        check_densified(acc, idx, "MultiPolygon member at its position", &mpg.0[i].exterior().0, &dp.0[i].exterior().0, m);
+                                    }
+                                }
+                            }
+                            Err(e) => acc.viol("densify(Polygon with three interiors / Multi*) panic".into(), idx, || json!({"polygon": format!("{:?}", pg3), "max": m, "panic": e})),
+                        }
+                    }
                     let t = Triangle(c(v[0]), c(v[1]), c(v[2]));
                     match guard(|| Euclidean.densify(&t, m)) {
                         Ok(d) => check_densified(acc, idx, "Triangle", &t.to_polygon().exterior().0, &d.exterior().0, m),
                         Err(e) => acc.viol("densify(Triangle) panic".into(), idx, || json!({"triangle": format!("{:?}", t), "max": m, "panic": e})),
                     }
                 }
+            }
+        });
+    }
+    // many pieces per edge (10^3 .. 10^6), f64 and f32: inserted points in order along the edge and inside it, no piece longer than the maximum beyond the
+    // rounding of the coordinates (4 ulp of the coordinate magnitude)
+    {
+        let cases: Vec<((f64, f64), (f64, f64), f64)> = vec![
+            ((0.0, 0.0), (1.0, 0.0), 1e-3), ((0.0, 0.0), (1.0, 0.0), 1e-5), ((0.0, 0.0), (3.0, 0.0), 1e-4), ((0.0, 0.0), (0.0, -1.0), 1e-5), ((1.0, 1.0), (2.0, 3.0), 3e-5),
+            ((0.0, 0.0), (1.0, 0.0), 1e-6), ((-1.0, 2.0), (1.0, -2.0), 7e-5), ((0.0, 0.0), (1000.0, 0.0), 0.01), ((5.0, 5.0), (5.0, 6.0), 1.5e-5),
+        ];
+        run.stage("densify-many-pieces", cases.len() * 2, |idx, acc| {
+            let (a, b, max) = cases[idx / 2];
+            let f32_twin = idx % 2 == 1;
+            acc.class(format!("many pieces {}", if f32_twin { "f32" } else { "f64" }));
+            macro_rules! go {
+                ($t:ty, $ulp:expr) => {{
+                    let line = Line::new(Coord::<$t> { x: a.0 as $t, y: a.1 as $t }, Coord::<$t> { x: b.0 as $t, y: b.1 as $t });
+                    acc.evals += 1;
+                    match guard(|| Euclidean.densify(&line, max as $t)) {
+                        Err(e) => acc.viol(format!("densify<{}> with many pieces panic", stringify!($t)), idx, || json!({"line": format!("{:?}", line), "max": max, "panic": e})),
+                        Ok(d) => {
+                            let pts: Vec<(f64, f64)> = d.0.iter().map(|c| (c.x as f64, c.y as f64)).collect();
+                            let (ax, ay, bx, by) = (a.0, a.1, b.0, b.1);
+                            let len = ((bx - ax).powi(2) + (by - ay).powi(2)).sqrt();
+                            let mag = ax.abs().max(ay.abs()).max(bx.abs()).max(by.abs());
+                            let slack = 4.0 * $ulp * mag;
+                            let mut bad: Option<String> = None;
+                            if pts.first() != Some(&(ax, ay)) || pts.last() != Some(&(bx, by)) {
+                                bad = Some("end points not kept".into());
+                            }
+                            let mut last_t = -1.0;
+                            let mut worst = 0.0f64;
+                            for (i, p) in pts.iter().enumerate() {
+                                let t = ((p.0 - ax) * (bx - ax) + (p.1 - ay) * (by - ay)) / (len * len);
+                                let off = ((p.0 - ax) * (by - ay) - (p.1 - ay) * (bx - ax)).abs() / len;
+                                if t < -slack / len || t > 1.0 + slack / len || off > slack {
+                                    bad = Some(format!("point {} = {:?} is not on the segment (parameter {}, offset {})", i, p, t, off));
+                                    break;
+                                }
+                                if t < last_t - slack / len {
+                                    bad = Some(format!("point {} goes backwards along the segment", i));
+                                    break;
+                                }
+                                if i > 0 {
+                                    let q = pts[i - 1];
+                                    worst = worst.max(((p.0 - q.0).powi(2) + (p.1 - q.1).powi(2)).sqrt());
+                                }
+                                last_t = t;
+                            }
+                            acc.maxf(&format!("longest piece / max ({})", stringify!($t)), worst / max);
+                            if bad.is_none() && worst > max + 2.0 * slack {
+                                bad = Some(format!("longest piece {} exceeds the maximum {}", worst, max));
+                            }
+                            if bad.is_none() && (pts.len() as f64) > len / max + 3.0 {
+                                bad = Some(format!("{} points for about {} pieces", pts.len(), (len / max).ceil()));
+                            }
+                            if let Some(msg) = bad {
+                                acc.viol(format!("densify<{}> of one edge into many pieces: {}", stringify!($t), if msg.contains("not on the segment") { "a point is not on the segment" } else if msg.contains("backwards") { "a point goes backwards" } else if msg.contains("exceeds") { "the longest piece exceeds the maximum" } else if msg.contains("points for") { "too many points" } else { "end points not kept" }), idx, || json!({"line": format!("{:?}", line), "max": max, "points": pts.len(), "detail": msg}));
+                            }
+                        }
+                    }
+                }};
+            }
+            if f32_twin {
+                go!(f32, 1.1920929e-7);
+            } else {
+                go!(f64, 2.220446049250313e-16);
             }
         });
     }
